@@ -13,7 +13,9 @@ import (
 	"verif/checks/c02"
 	"verif/checks/c09"
 	"verif/checks/c10"
+	"verif/checks/expo"
 	"verif/fw"
+	"verif/parse"
 	"verif/wm"
 )
 
@@ -41,7 +43,14 @@ func worlds() []*wm.World {
 		{Kind: "StatefulSet", NS: "ns2", Name: "w", Labels: map[string]string{"app": "b"}, Replicas: 1},
 		{Kind: "Deployment", NS: "ns2", Name: "ingress-controller", Labels: map[string]string{"app": "ic"}, Replicas: 1},
 	}
+	// names that are valid DNS subdomains but not DNS labels (dots, more than 63 characters), digits first
+	odd := []wm.Workload{
+		{Kind: "Deployment", NS: "ns1", Name: "payments.v2", Labels: map[string]string{"app": "a"}, Ports: []wm.CPort{{Num: 80}}, Replicas: 1},
+		{Kind: "Deployment", NS: "ns1", Name: LongName, Labels: map[string]string{"app": "b"}, Replicas: 1},
+		{Kind: "StatefulSet", NS: "ns-2.x", Name: "1w", Labels: map[string]string{"app": "c"}, Replicas: 1},
+	}
 	return []*wm.World{
+		{WLs: odd, NPs: []wm.NP{np1}},
 		{WLs: wls},
 		{WLs: wls, NPs: []wm.NP{np1}},
 		{WLs: wls, NPs: []wm.NP{np1, np3}},
@@ -54,7 +63,10 @@ func worlds() []*wm.World {
 	}
 }
 
-var focuses = []string{"w", "ns1/w", "ns2/w", "z", "ns1/z", "ns2/z", "other", "ns3/other", "nosuch", "ns1/nosuch", "ingress-controller", "ns2/ingress-controller", "w[Deployment]", "ns1/w[Deployment]", "ns1", "W"}
+// LongName is a 72-character workload name.
+var LongName = "a123456789-b123456789-c123456789-d123456789-e123456789-f123456789-g12345678"
+
+var focuses = []string{"payments.v2", "ns1/payments.v2", LongName, "ns1/" + LongName, "1w", "ns-2.x/1w", "w", "ns1/w", "ns2/w", "z", "ns1/z", "ns2/z", "other", "ns3/other", "nosuch", "ns1/nosuch", "ingress-controller", "ns2/ingress-controller", "w[Deployment]", "ns1/w[Deployment]", "ns1", "W"}
 
 type Case struct {
 	WI       int
@@ -119,6 +131,10 @@ func eval(cs Case, x *fw.Rec) {
 	}
 	fullConns, fullPeers, err := mk("", "txt").ConnlistFromResourceInfos(infos)
 	if err != nil {
+		if strings.Contains(err.Error(), "cannot convert named port for an IP destination") {
+			x.Count("skipped_documented_named_port_error", 1) // documented deviation (C01): such inputs have no report to filter
+			return
+		}
 		x.Fail("harness: unfocused analysis fails", "", err.Error())
 		return
 	}
@@ -193,11 +209,68 @@ func eval(cs Case, x *fw.Rec) {
 		if relKey(g) != relKey(want) {
 			x.Fail(f+": focused output does not encode the filtered relation", "", fmt.Sprintf("focus %q\n--- parsed\n%s\n--- expected\n%s\n--- output\n%s", cs.Focus, relKey(g), relKey(want), out))
 		}
+		if !cs.Exposure {
+			continue
+		}
+		// the exposure sections are entries of the report too: the focused ones are exactly the unfocused ones of the workloads matching W
+		cau := mk("", f)
+		cu, _, err := cau.ConnlistFromResourceInfos(infos)
+		if err != nil {
+			continue
+		}
+		outU, err := cau.ConnectionsListToString(cu)
+		if err != nil {
+			continue
+		}
+		plU, err := c09.ParseList(f, outU)
+		if err != nil {
+			x.Fail(f+": unfocused output cannot be parsed", "", err.Error()+"\n"+outU)
+			continue
+		}
+		wantX, gotX := expoLines(plU, cs.Focus, true), expoLines(pl, cs.Focus, false)
+		if wantX != gotX {
+			x.Fail(f+": exposure sections of the focused report are not the filter of the unfocused ones", "", fmt.Sprintf("focus %q\n--- focused\n%s\n--- entries of the unfocused exposure sections whose workload matches\n%s\n--- focused output\n%s\n--- unfocused output\n%s", cs.Focus, gotX, wantX, out, outU))
+		}
+		if wantX != "" {
+			x.Count("exposure_sections_compared_nonempty", 1)
+		}
 	}
 }
 
+// expoLines renders the exposure sections (optionally only the lines of workloads matching the focus string).
+func expoLines(pl parse.List, focus string, filter bool) string {
+	match := func(wl string) bool {
+		if i := strings.Index(wl, "["); i >= 0 {
+			wl = wl[:i]
+		}
+		name := wl
+		if i := strings.Index(wl, "/"); i >= 0 {
+			name = wl[i+1:]
+		}
+		return !filter || name == focus || wl == focus
+	}
+	var s []string
+	for _, e := range pl.Egress {
+		if match(e.Workload) {
+			s = append(s, "egress|"+e.Workload+"|"+e.Peer+"|"+e.Conn)
+		}
+	}
+	for _, e := range pl.Ingress {
+		if match(e.Workload) {
+			s = append(s, "ingress|"+e.Workload+"|"+e.Peer+"|"+e.Conn)
+		}
+	}
+	for _, u := range pl.Unprotected {
+		if match(strings.SplitN(u, "|", 2)[0]) {
+			s = append(s, "unprotected|"+u)
+		}
+	}
+	sort.Strings(s)
+	return strings.Join(s, "\n")
+}
+
 func Run(r *fw.Run) {
-	r.Rule = "9 worlds (a name shared by workloads of two namespaces and of two kinds, a workload named ingress-controller, ipBlock policies in namespaces without a matching workload, Service + Ingress, ANP) x 16 focus strings (names, namespace/names, absent names, ingress-controller, strings with [Kind], a namespace name, wrong case) x exposure on/off; the focused API relation must equal the filter of the unfocused relation (same keys incl. IP ranges, same connections) and each of the five formats must parse back to it; non-trivial = the filter keeps at least one entry; distinct = distinct (world, focus) reports"
+	r.Rule = "10 worlds (names with dots / longer than 63 characters / starting with a digit, a name shared by workloads of two namespaces and of two kinds, a workload named ingress-controller, ipBlock policies in namespaces without a matching workload, Service + Ingress, ANP) x 22 focus strings (names, namespace/names, absent names, ingress-controller, strings with [Kind], a namespace name, wrong case) x exposure on/off; the focused API relation must equal the filter of the unfocused relation (same keys incl. IP ranges, same connections) and each of the five formats must parse back to it; with exposure the exposure sections of the focused output must equal, format by format, the lines of the unfocused exposure sections whose workload matches (worlds of the exposure scopes give a focus workload several representative peers); non-trivial = the filter keeps at least one entry; distinct = distinct (world, focus) reports"
 	r.Assume = []string{"focus strings are syntactically valid workload names (name or namespace/name, both parts non-empty); the degenerate '/' is excluded (it matches every IP peer)", "uses the C09 parsers"}
 	if r.Quick() {
 		r.SetBudget(120 * time.Second)
@@ -230,6 +303,10 @@ func Run(r *fw.Run) {
 		if sc.Name == "S-sel-ip" || sc.Name == "S-rules" {
 			srcs = append(srcs, src{"c01-" + sc.Name, sc.Gen, map[string]int{"S-sel-ip": 150, "S-rules": 12}[sc.Name]})
 		}
+	}
+	for _, sc := range expo.Scopes(true) {
+		// exposure worlds: a focus workload exposed to several representative peers at once
+		srcs = append(srcs, src{"expo-" + sc.Name, sc.Gen, map[string]int{"shared-policy": 8, "one-policy/two-rules": 60, "two-policies": 4}[sc.Name]})
 	}
 	for _, sc := range srcs {
 		sc := sc
